@@ -67,7 +67,10 @@ UTF8_SAMPLES = ["a", "é", "€", "😀", "z", "ß", "語", "𝄞"]
 
 
 DICT_STRINGS = ["data:", "http://", "https://", "\u200d", "\u200c", "\ufeff", "\u0301", " ", "\t", "\x00", "\u202e", "null",
-                "\U0001f468\u200d\U0001f469", "."]
+                "\U0001f468\u200d\U0001f469", ".",
+                # code points a Unicode-aware helper might single out, and the first / last scalar of every encoded width
+                "\ufffd", "\x7f", "\u0080", "\u07ff", "\u0800", "\uffff", "\U00010000", "\U000fffff", "\U00100000", "\U0010ffff",
+                "\ud7ff", "\ue000", "\u2028", "\u00a0", "\u00ad", "\ufe0f", "\u034f"]
 DICT_INTS = []
 
 
@@ -301,7 +304,8 @@ class CaseGen:
                     # an unknown format: another registered one, or a near miss of a known spelling
                     base = self.rng.choice([d[0] for d in t["de"]])
                     unk = [('text', self.rng.choice(["tpm", "android-key", base.upper(), base.capitalize(), base + "2", base[:-1],
-                                                     " " + base, base + "\x00"]).encode())]
+                                                     " " + base, base + "\x00", "com.example.authenticator.attestation.v2",
+                                                     "x" * 32, "x" * 33, "y" * 64, "z" * 300, ""]).encode())]
                 ents = [('text', k.encode()) for k in known]
                 ents[self.rng.randint(0, len(ents)):0] = unk
                 return ('arr', ents)
